@@ -59,24 +59,25 @@ theorem Decides.branch {env : Env} {st : List Byte} {B1 X Y : List Ev} {c : Bool
 theorem decides_tofh (env : Env) (st : List Byte) (hlen : st.length = 512) (l : Label) :
     Decides env st (jumpIfToOrFromHost l) (if toOrFromHost (pktOfD st) then some l else none) := by
   intro rest m hI
-  have e1 := step_ldx_state (env := env) hI opLoadReg64 1 368 8 0 (bs := (st.drop 368).take 8)
-    (hop := Or.inr (Or.inr (Or.inr ⟨rfl, rfl⟩))) (hd := by omega) (hk := by omega)
-    (hb := getBytes_full hlen 368 8 (by omega))
-  have hI1 := hI.setReg 1 (BitVec.ofNat 64 (fieldN st 368 8)) (by omega) (by omega) (by omega)
-  have hI2 := hI1.setReg 1 (BitVec.ofNat 64 (fieldN st 368 8) &&& sext32 12) (by omega) (by omega) (by omega)
+  have e1 := fun nxt => step_ldx_state_raw (env := env) hI.r9 hI.sim.len opLoadReg64 1 368 8 0 nxt
+    (Or.inr (Or.inr (Or.inr ⟨rfl, rfl⟩))) (by omega) (by omega)
+  have hI1 := hI.setReg 1 (BitVec.ofNat 64 (fieldN m.st 368 8)) (by omega) (by omega) (by omega)
+  have hI2 := hI1.setReg 1 (BitVec.ofNat 64 (fieldN m.st 368 8) &&& sext32 12) (by omega) (by omega) (by omega)
   have rl : ∀ {mm : Mach}, Inv st mm → 1 < mm.regs.length := fun h => by rw [h.regsLen]; omega
-  have e2 := fun nxt => step_andImm64 env (m.setReg 1 (BitVec.ofNat 64 (fieldN st 368 8))) 1 0 12 nxt _ (by omega)
+  have e2 := fun nxt => step_andImm64 env (m.setReg 1 (BitVec.ofNat 64 (fieldN m.st 368 8))) 1 0 12 nxt _ (by omega)
     (reg_setReg_eq (rl hI))
-  have e3 := step_jcond64 (env := env) (m := (m.setReg 1 (BitVec.ofNat 64 (fieldN st 368 8))).setReg 1
-    (BitVec.ofNat 64 (fieldN st 368 8) &&& sext32 12)) opJumpNEImm64 1 0 0 none _ (Or.inr (Or.inl rfl))
+  have e3 := step_jcond64 (env := env) (m := (m.setReg 1 (BitVec.ofNat 64 (fieldN m.st 368 8))).setReg 1
+    (BitVec.ofNat 64 (fieldN m.st 368 8) &&& sext32 12)) opJumpNEImm64 1 0 0 none _ (Or.inr (Or.inl rfl))
     (reg_setReg_eq (rl hI1))
   refine ⟨_, hI2, ?_⟩
   simp only [jumpIfToOrFromHost, load64, andImm64, jumpNEImm64, mk, mkJ, R1, R9, stateOffFlags, stateEventHdrSize,
     flagHostBits, List.cons_append, List.nil_append]
   refine (lrun_ins_next (e1 _)).trans ?_
   refine (lrun_ins_next (e2 _)).trans ?_
-  have hc : cond (opJumpNEImm64 / 16) (BitVec.ofNat 64 (fieldN st 368 8) &&& sext32 12) (sext32 0) =
+  have hc : cond (opJumpNEImm64 / 16) (BitVec.ofNat 64 (fieldN m.st 368 8) &&& sext32 12) (sext32 0) =
       some (toOrFromHost (pktOfD st)) := by
+    have h12 : sext32 12 = 12#64 := by decide
+    rw [h12, hI.sim.flags]
     simp only [cond, opJumpNEImm64, toOrFromHost, pktOfD, sext32]
     rfl
   rw [hc] at e3
